@@ -9,5 +9,9 @@ trap 'git -C /repo worktree remove --force "$wt"; rm -rf /verif/.cache/mod-$tag 
 git -C "$wt" apply "$patch" || { echo "patch does not apply"; exit 2; }
 for c in "$@"; do
   echo "== check $c"
+  # the evidence file belongs to runs against /repo itself: keep it, restore it afterwards
+  cp /verif/evidence/$c.json /tmp/seedcheck-ev-$$-$c.json 2>/dev/null
   (cd /verif && VERIF_REPO="$wt" ./check "$c" quick 2>&1 | grep "^violation\|tier=quick\|^VACUOUS\|build failed" | cut -c1-220 | head -10; echo "exit=${PIPESTATUS[0]}")
+  [ -f /tmp/seedcheck-ev-$$-$c.json ] && mv /tmp/seedcheck-ev-$$-$c.json /verif/evidence/$c.json
+  rm -f /verif/replays/$c-*.json
 done
